@@ -255,6 +255,34 @@ def symx_fmt(fmt, args):
     return out % tup
 
 
+def symx_fmt_precise(fmt, args):
+    """variant planted into gallery modules: integers are rendered digit by digit (adapters there
+    convert numbers to text and back, so the text is data, not a message)"""
+    tup = args if _isinstance(args, tuple) else (args,)
+    if _isinstance(args, dict) or not any(_type(a) in _SYMCLASS for a in tup):
+        return fmt % args
+    return sym_format(fmt, args, precise=True)
+
+
+def symx_mod_precise(l, r):
+    if _isinstance(l, str) and not _isinstance(r, dict):
+        tup = r if _isinstance(r, tuple) else (r,)
+        if any(_type(a) in _SYMCLASS for a in tup):
+            return sym_format(l, r, precise=True)
+    return symx_mod(l, r)
+
+
+def symx_format(lit, *args, **kwargs):
+    return lit.format(*args, **kwargs)
+
+
+def symx_format_precise(lit, *args, **kwargs):
+    if not any(_type(a) in _SYMCLASS for a in list(args) + list(kwargs.values())):
+        return lit.format(*args, **kwargs)
+    from .strings import sym_strformat
+    return sym_strformat(lit, args, kwargs)
+
+
 def symx_mod(l, r):
     """every `%` whose left operand is not a literal: text formatting with symbolic arguments is modelled"""
     if _isinstance(l, str) and not _isinstance(r, dict):
@@ -756,7 +784,9 @@ _REAL2SHIM[ShByteArray] = _BAProxy
 
 INJECT = dict(isinstance=sh_isinstance, int=ShInt, bool=ShBool, bytes=ShBytes, bytearray=_BAProxy, str=ShStr,
               type=sh_type, range=sh_range)
-HOOKS = dict(__symx_b__=CBytes, __symx_fmt__=symx_fmt, __symx_exc__=symx_exc, __symx_mod__=symx_mod, __symx_sjoin__=symx_sjoin)
+HOOKS = dict(__symx_b__=CBytes, __symx_fmt__=symx_fmt, __symx_exc__=symx_exc, __symx_mod__=symx_mod, __symx_sjoin__=symx_sjoin,
+             __symx_format__=symx_format)
+HOOKS_EXTRA = dict(HOOKS, __symx_fmt__=symx_fmt_precise, __symx_mod__=symx_mod_precise, __symx_format__=symx_format_precise)
 
 
 # ---------------------------------------------------------------------------------------------
@@ -781,6 +811,8 @@ class Instrument(ast.NodeTransformer):
         if (isinstance(f, ast.Attribute) and f.attr == "join" and isinstance(f.value, ast.Constant) and isinstance(f.value.value, str)
                 and len(node.args) == 1 and not node.keywords):
             return ast.copy_location(ast.Call(func=ast.Name(id="__symx_sjoin__", ctx=ast.Load()), args=[f.value, node.args[0]], keywords=[]), node)
+        if isinstance(f, ast.Attribute) and f.attr == "format" and isinstance(f.value, ast.Constant) and isinstance(f.value.value, str):
+            return ast.copy_location(ast.Call(func=ast.Name(id="__symx_format__", ctx=ast.Load()), args=[f.value] + node.args, keywords=node.keywords), node)
         return node
 
     def visit_ExceptHandler(self, node):
